@@ -1,6 +1,7 @@
 package retransmission
 
 import "github.com/keep-network/keep-core/pkg/net"
+import "github.com/keep-network/keep-core/pkg/internal/verifhook"
 
 // Strategy represents a specific retransmission strategy.
 type Strategy interface {
@@ -62,6 +63,7 @@ func WithBackoffStrategy() *BackoffStrategy {
 // Tick implements the Strategy.Tick function.
 func (bos *BackoffStrategy) Tick(retransmitFn RetransmitFn) error {
 	bos.tickCounter++
+	verifhook.At("retransmission.backoff.counted")
 
 	if bos.tickCounter == bos.retransmitTick {
 		bos.retransmitTick += bos.delay + 1
